@@ -16,7 +16,7 @@ if [ "${2:-}" != "nosuite" ]; then
   if [ $built = true ]; then suite=$(ctest --test-dir $w/_cbuild -j8 --timeout 3000 2>&1 | grep "tests passed" | tail -1); fi
   rm -rf $w/_cbuild
 fi
-mkdir -p $v && rsync -a --exclude build --exclude out --exclude .git $here/ $v/
+mkdir -p $v && rsync -a --exclude /build --exclude /out --exclude /.git $here/ $v/
 chk=$(cd $v && VERIF_REPO=$w ./check.py $pid --tier quick 2>&1 | grep -E "^(VIOLATION|OK|KNOWN)" | tail -2 | tr '\n' ' ')
 rm -rf $v
 git -C /repo worktree remove --force $w
